@@ -16,7 +16,16 @@ from .core import VERIF_DIR
 PROPS = {
     "C04": dict(engine="bufsim", profiles=["faultfree", "faultfree", "alloc_fail", "deep", "faultfree", "alloc_fail"], quick_runs=90000, slice=500, thorough_s=600, fit="native"),
     "C12": dict(engine="bufsim", profiles=["faultfree", "faultfree", "deep", "faultfree", "alloc_fail"], quick_runs=90000, slice=500, thorough_s=600, fit="native"),
-    "C13": dict(engine="bufsim", profiles=["primitives", "primitives", "primitives", "faultfree"], quick_runs=60000, slice=400, thorough_s=600, fit="seam"),
+    "C13": dict(engine="bufsim", profiles=["primitives", "primitives", "primitives", "faultfree", "primitives", "large"], quick_runs=60000, slice=400, thorough_s=600, fit="seam"),
+    "C01": dict(engine="objsim", profiles=["construct", "construct", "construct", "copies"], quick_runs=6000, slice=60, thorough_s=600, fit="seam"),
+    "C03": dict(engine="objsim", profiles=["neighbours", "neighbours", "assign", "construct"], quick_runs=6000, slice=60, thorough_s=600, fit="seam"),
+    "C05": dict(engine="objsim", profiles=["construct", "assign", "refs", "copies", "neighbours"], quick_runs=6000, slice=60, thorough_s=600, fit="weak"),
+    "C06": dict(engine="objsim", profiles=["two_handles", "two_handles", "construct", "assign"], quick_runs=6000, slice=60, thorough_s=600, fit="seam"),
+    "C08": dict(engine="objsim", profiles=["refs"], quick_runs=6000, slice=60, thorough_s=600, fit="native"),
+    "C09": dict(engine="objsim", profiles=["copies"], quick_runs=6000, slice=60, thorough_s=600, fit="seam"),
+    "C11": dict(engine="objsim", profiles=["misuse"], quick_runs=6000, slice=60, thorough_s=600, fit="native"),
+    "C20": dict(engine="objsim", profiles=["restart"], quick_runs=6000, slice=60, thorough_s=600, fit="native"),
+    "C10": dict(engine="objsim", profiles=["assign", "assign", "two_handles", "refs"], quick_runs=6000, slice=60, thorough_s=600, fit="native"),
 }
 
 _ENGINES = {}
